@@ -155,7 +155,7 @@ pub fn model_text<'a>(model: &'a Model, text: &'a str) -> String {
     out
 }
 
-pub const SHAPES: [&str; 35] = [
+pub const SHAPES: [&str; 36] = [
     "a.E: boom",
     "a.E",
     "x.Unknown: msg",
@@ -170,6 +170,8 @@ pub const SHAPES: [&str; 35] = [
     "    at a.b.n(Native Method)",
     "    at a.b.n(Unknown Source)",
     "    at a.c.r(Unknown Source:2)",
+    // same class, method and line as the shape before, another file (the class has no sourceFile header: the file is the frame's own)
+    "    at a.c.r(G.java:2)",
     "Caused by: a.E: inner",
     "Caused by: x.Unknown",
     "  Caused by: a.E: indented",
@@ -392,7 +394,7 @@ pub fn run_c07(tier: Tier) -> i32 {
         prop: "C07",
         tier,
         level: "model_checking",
-        rule: format!("every text of 1..={} lines over 35 line shapes (plus long lines and run-length texts: 99..1001 unresolved frames followed by a resolving one; plus 5 long lines of 1.1 kB / 70 kB placed first, between and after <= 2 other shapes) (throwables known/unknown with/without message, message containing ': ' and frame-like text, frames space/tab/trailing-blank indented that resolve to 2 / 1 / 0 frames, unknown method, unknown class, line outside every range, Native Method, Unknown Source, 'Caused by:' known/unknown/indented, '... n more', blank, 'at x(y:1)', non-ASCII) x 3 terminator policies (LF, CRLF, no final newline) x 3 mappings x {{mapper (for every second mapping the one built with the parameter index), cache}}; oracle = text model R12 with an independent line classifier. states = (text, mapping); distinct = distinct expected outputs; non-trivial = outputs that differ from the normalised input", depth),
+        rule: format!("every text of 1..={} lines over 36 line shapes (plus long lines and run-length texts: 99..1001 unresolved frames followed by a resolving one; plus 5 long lines of 1.1 kB / 70 kB placed first, between and after <= 2 other shapes) (throwables known/unknown with/without message, message containing ': ' and frame-like text, frames space/tab/trailing-blank indented that resolve to 2 / 1 / 0 frames, unknown method, unknown class, line outside every range, Native Method, Unknown Source, two frames differing only in their file, 'Caused by:' known/unknown/indented, '... n more', blank, 'at x(y:1)', non-ASCII) x 3 terminator policies (LF, CRLF, no final newline) x 3 mappings x {{mapper (for every second mapping the one built with the parameter index), cache}}; oracle = text model R12 with an independent line classifier. states = (text, mapping); distinct = distinct expected outputs; non-trivial = outputs that differ from the normalised input", depth),
         bounds: json!({"lines": depth, "shapes": SHAPES.to_vec(), "terminators": ["LF","CRLF","LF without final newline"], "mappings": mappings().iter().map(|(l, m)| json!({"label":l,"text":esc(&print_file(m, Term::Lf))})).collect::<Vec<_>>()}),
         assumptions: vec!["lines are split like str::lines (LF, CR dropped only directly before LF)".into()],
         trusted_base: vec!["rustc/std (str::trim, str::parse::<usize>)".into(), "text model + line classifier in pgmc/src/props/e3.rs".into(), "reference model pgmc/src/model.rs".into()],
@@ -597,7 +599,23 @@ fn c08_param_frames(builts: &[Built], acc: &mut Acc) {
                         }
                         let got: Vec<(String, String, usize, Option<String>, Option<String>)> = s.remap_typed_param_frames(seq).iter().map(|f| (f.class.to_string(), f.method.to_string(), f.line, f.file.map(|x| x.to_string()), f.params.map(|x| x.to_string()))).collect();
                         a2.outcome(h64(&exp), exp.len() != seq.len() || exp.iter().zip(seq.iter()).any(|(e, q)| e.0 != q.0));
-                        if got != exp {
+                        // the mapper built without the parameter index is outside C03's statement: it may keep every such
+                        // frame (today) or resolve it like the other two subjects
+                        let alt_ok = !has_index && {
+                            let mut alt: Vec<(String, String, usize, Option<String>, Option<String>)> = Vec::new();
+                            for (cl, me, pa) in seq {
+                                b.model.frames_by_params(cl, me, pa, &mut mout);
+                                if !mout.is_empty() {
+                                    for f in &mout {
+                                        alt.push((f.class.to_string(), f.method.to_string(), 0, None, Some(pa.clone())));
+                                    }
+                                } else {
+                                    alt.push((cl.clone(), me.clone(), 0, None, Some(pa.clone())));
+                                }
+                            }
+                            got == alt
+                        };
+                        if got != exp && !alt_ok {
                             a2.violation(format!("typed:{}:param-frames", label), seq.len(), || {
                                 (
                                     format!("remap_stacktrace_typed on {} with mapping {}: frames built with_parameters {:?}: expected {:?} got {:?}", label, b.label, seq, exp, got),
@@ -701,7 +719,7 @@ pub fn run_c08(tier: Tier) -> i32 {
         prop: "C08",
         tier,
         level: "model_checking",
-        rule: format!("every typed trace with a top level from {} levels (exception absent / known / unknown x message / none; 0..2 frames over 8 frame kinds: resolving to 2 frames, unknown method, unknown class, entry without lines, known method with a line outside every range, two class names with a module prefix containing '/', a frame resolving to 40 frames) and cause chains of depth 0..={} (first cause level: {}; deeper levels: {} ) x 2 mappings x {{mapper, cache}}; plus typed traces of 1..2 frames built with StackFrame::with_parameters over 15 (class, method, parameter list) triples (a resolving frame is replaced by the entries with that parameter list, any other is kept unchanged including its parameter list; the mapper without the index keeps all) on mapper / mapper-with-index / cache; plus long traces (99..1001 unresolved frames followed by resolving ones, frames that differ only in their file); oracle R13 (same depth, every throwable remapped-or-identical, every frame expanded-or-identical, order kept) and, for every trace, printed typed result == text API on the printed input. distinct = distinct expected traces; non-trivial = expected != input", nlevels, max_depth, if t { "all levels with an exception" } else { "levels with an exception and <= 1 frame" }, if t { "depth 2: the first 40 levels with an exception, depth 3: the 8-level pool {known, unknown} x {no frame, resolving, '/'-class, 40-deep}; plus depth-4 chains: first level <= 1 frame, then the 8-level pool" } else { "the 8-level pool {known, unknown} x {no frame, resolving, '/'-class, 40-deep}" }),
+        rule: format!("every typed trace with a top level from {} levels (exception absent / known / unknown x message / none; 0..2 frames over 8 frame kinds: resolving to 2 frames, unknown method, unknown class, entry without lines, known method with a line outside every range, two class names with a module prefix containing '/', a frame resolving to 40 frames) and cause chains of depth 0..={} (first cause level: {}; deeper levels: {} ) x 2 mappings x {{mapper, cache}}; plus typed traces of 1..2 frames built with StackFrame::with_parameters over 15 (class, method, parameter list) triples (a resolving frame is replaced by the entries with that parameter list, any other is kept unchanged including its parameter list; the mapper without the index keeps all or resolves likewise) on mapper / mapper-with-index / cache; plus long traces (99..1001 unresolved frames followed by resolving ones, frames that differ only in their file); oracle R13 (same depth, every throwable remapped-or-identical, every frame expanded-or-identical, order kept) and, for every trace, printed typed result == text API on the printed input. distinct = distinct expected traces; non-trivial = expected != input", nlevels, max_depth, if t { "all levels with an exception" } else { "levels with an exception and <= 1 frame" }, if t { "depth 2: the first 40 levels with an exception, depth 3: the 8-level pool {known, unknown} x {no frame, resolving, '/'-class, 40-deep}; plus depth-4 chains: first level <= 1 frame, then the 8-level pool" } else { "the 8-level pool {known, unknown} x {no frame, resolving, '/'-class, 40-deep}" }),
         bounds: json!({"top_levels": nlevels, "max_cause_depth": max_depth, "throwables": THROWABLES.iter().map(|t| format!("{:?}", t)).collect::<Vec<_>>(), "frames": FRAMES.iter().map(|f| format!("{:?}", f)).collect::<Vec<_>>()}),
         assumptions: vec!["canonical printed form: frames carry a file, cause levels carry an exception, the top level has an exception or a frame".into()],
         trusted_base: vec!["rustc/std".into(), "reference model pgmc/src/model.rs + model_typed in pgmc/src/props/e3.rs".into()],
@@ -750,8 +768,8 @@ const RT_MESSAGES: [Option<&str>; 14] = [
     Some("Exception in thread \"main\" x"),
 ];
 const RT_FCLASSES: [&str; 2] = ["a.b.C", "x.Y$1"];
-const RT_METHODS: [&str; 3] = ["m", "<init>", "\u{e9}"];
-const RT_FILES: [&str; 4] = ["F.java", "Unknown Source", "<unknown>", "F(1).kt"];
+const RT_METHODS: [&str; 5] = ["m", "<init>", "\u{e9}", "r: m", "m n"];
+const RT_FILES: [&str; 6] = ["F.java", "Unknown Source", "<unknown>", "F(1).kt", "R (c) [2].java", "F) ~[x"];
 const RT_LINES: [usize; 3] = [0, 1, usize::MAX];
 
 fn rt_frames() -> Vec<(String, String, usize, Option<String>)> {
